@@ -107,7 +107,7 @@ Definition sites : list site := [
   mk_site "checkMatrix" "checkRawYAMLValue" "a.Value" 0 KN [];
   mk_site "checkMatrix" "checkMatrixRow" "r" 0 KN [];
   mk_site "checkMatrix" "checkOneExpression" "m.Include.Expression" 0 (KL "jobs.<job_id>.strategy") [];
-  mk_site "checkMatrix" "checkOneExpression" "m.Include.Expression" 1 (KL "jobs.<job_id>.strategy") [];
+  mk_site "checkMatrix" "checkOneExpression" "combi.Expression" 1 (KL "jobs.<job_id>.strategy") [];
   mk_site "checkMatrix" "checkRawYAMLValue" "assign.Value" 0 KN [];
   mk_site "checkMatrixRow" "checkArrayExpression" "r.Expression" 0 (KL "jobs.<job_id>.strategy") [];
   mk_site "checkMatrixRow" "checkRawYAMLValue" "v" 0 KN [];
